@@ -687,6 +687,19 @@ func c08Run(w *W, c Case) {
 			roots = append(roots, ref.Stamp{Y: gy, M: gm, D: gd, H: 23, Mi: rng.Intn(60), S: rng.Intn(60)})
 		}
 	}
+	// (h) the Lichun day before the Lichun instant (the three year conventions and the exact month differ there)
+	if e := tbl["立春"]; e != nil && e.GetYear() == y {
+		roots = append(roots, ref.Stamp{Y: y, M: e.GetMonth(), D: e.GetDay(), H: 0, Mi: 0, S: 30})
+	}
+	// (i) near the 1582 switch: days-of-month 5..14, which month/year stepping can carry into the gap
+	if y >= 1570 && y <= 1583 {
+		for m := 1; m <= 12; m++ {
+			if y == 1582 && m == 10 {
+				continue // those days do not exist
+			}
+			roots = append(roots, ref.Stamp{Y: y, M: m, D: 5 + rng.Intn(10)}, ref.Stamp{Y: y, M: m, D: 5 + rng.Intn(10), H: 23, Mi: 30})
+		}
+	}
 	if !w.Quick {
 		for i := 0; i < 4; i++ {
 			st := randStamp(rng)
@@ -698,6 +711,9 @@ func c08Run(w *W, c Case) {
 		}
 	}
 	for i, st := range roots {
+		if !st.Valid() {
+			continue // never hand the library a date that does not exist
+		}
 		c08Root(w, st, i == 0 && y%10 == 0)
 	}
 	if y == 2024 {
